@@ -617,6 +617,13 @@ def replay(ctx):
     code, cfg = r['code'], r.get('config', {})
     print('input :', json.dumps(code))
     print('config:', json.dumps(cfg))
+    if r.get('cli_modes'):
+        d = ctx.mkscratch()
+        o = run_modes(code, cfg, os.path.join(d, 'replay'))
+        print('command line:', json.dumps(printable(o))[:3000])
+        print('property clauses:', json.dumps(judge_modes(o)))
+        ctx.cleanup()
+        return 0
     built = ctx.build('Props/C16.v', 'Format/Extract.v', 'C16')
     res = run_impl('c16.py', {'format': [[code, cfg]]})['format'][0]
     print('implementation:', json.dumps(res)[:1500])
@@ -806,7 +813,10 @@ def run(ctx):
         if 0 <= k < len(pairs):
             ctx.sample({'code': pairs[k][0][:200], 'config': pairs[k][1], 'out': res[k].get('out', res[k].get('exc', ''))[:200]})
 
-    cli_sample(ctx, rng, pairs, res, 60 if thorough else 16)
+    t_cli = time.time()
+    cli_sample(ctx, rng, pairs, res, 60 if thorough else 10)
+    cli_modes(ctx, rng, run_, pairs, res, 12 if thorough else 1)
+    ctx.extra['cli_s'] = round(time.time() - t_cli, 1)
     return ctx.finish(
         level='proof',
         trusted=['Coq 8.16.1 kernel (coqc, vm_compute; no native_compute)',
@@ -922,3 +932,189 @@ def cli_sample(ctx, rng, pairs, res, n):
                           '%s on %s with %s' % (f['kind'], json.dumps(code[:160]), json.dumps(cfg)),
                           {'code': code, 'config': cfg, 'failure': f, 'cli': True})
     ctx.extra['cli'] = stats
+
+
+# ------------------------------------------------------------------ the command line, judged on the implementation alone
+HAND_BASES = ["project('p', 'c')\nx = [1, 2]\n", "if true\n    x = 1\nendif\n", "project('p', 'c')\n# the end\n",
+              "foreach i : [1, 2]\n    if i == 1\n        y = f(i, k: 'v')  # c\n    endif\nendforeach\n"]
+EOLS = [None, 'lf', 'crlf', 'cr', 'native']
+
+
+def byte_variants(canon):
+    """single byte-level perturbations of a canonical file (text with \n line ends)"""
+    v = [('canonical', canon)]
+    if canon.endswith('\n'):
+        v.append(('no-final-newline', canon[:-1]))
+    v.append(('extra-final-newline', canon + '\n'))
+    v.append(('extra-final-newlines', canon + '\n\n\n'))
+    v.append(('crlf', canon.replace('\n', '\r\n')))
+    v.append(('cr', canon.replace('\n', '\r')))
+    lines = canon.split('\n')
+    code_lines = [i for i, l in enumerate(lines) if l.strip()]
+    if code_lines:
+        i = code_lines[len(code_lines) // 2]
+        v.append(('trailing-blank', '\n'.join(lines[:i] + [lines[i] + ' '] + lines[i + 1:])))
+        v.append(('trailing-tab', '\n'.join(lines[:i] + [lines[i] + '\t'] + lines[i + 1:])))
+        j = code_lines[-1]
+        v.append(('trailing-blank-last-line', '\n'.join(lines[:j] + [lines[j] + '  '] + lines[j + 1:])))
+    v.append(('bom', '\ufeff' + canon))
+    ind = [i for i, l in enumerate(lines) if l.startswith('    ')]
+    if ind:
+        v.append(('tab-indent', '\n'.join('\t' + l[4:] if k == ind[0] else l for k, l in enumerate(lines))))
+        v.append(('tabs-indent-all', '\n'.join(re.sub(r'^((?:    )+)', lambda m: '\t' * (len(m.group(1)) // 4), l) for l in lines)))
+    m = re.search(r'(?m)^(\w+) = ', canon)
+    if m:
+        v.append(('tab-between-tokens', canon[:m.start()] + m.group(1) + '\t= ' + canon[m.end():]))
+        v.append(('two-blanks-between-tokens', canon[:m.start()] + m.group(1) + '  = ' + canon[m.end():]))
+    v.append(('leading-blank-line', '\n' + canon))
+    return v
+
+
+def write_conf(path, cfg):
+    with open(path, 'w', encoding='utf-8') as f:
+        for key, v in cfg.items():
+            if isinstance(v, bool):
+                v = 'true' if v else 'false'
+            elif isinstance(v, str) and key != 'end_of_line':
+                v = "'" + v + "'"
+            f.write('%s = %s\n' % (key, v))
+
+
+def run_modes(text, cfg, wd, again=True):
+    """every mode of `meson format` on one file (its exact bytes); nothing but the implementation"""
+    os.makedirs(wd)
+    data = text.encode('utf-8')
+    src = os.path.join(wd, 'meson.build')
+    conf = os.path.join(wd, 'fmt.ini')
+    write_conf(conf, cfg)
+    base = ['format', '-c', conf]
+
+    def put():
+        with open(src, 'wb') as f:
+            f.write(data)
+
+    def get(p):
+        try:
+            return open(p, 'rb').read()
+        except OSError:
+            return None
+    o = {}
+    put()
+    p = meson_cli(base + ['--check-only', 'meson.build'], cwd=wd)
+    o['check_only_rc'], o['check_only_touched'] = p.returncode, get(src) != data
+    put()
+    p = meson_cli(base + ['--check-diff', 'meson.build'], cwd=wd)
+    o['check_diff_rc'], o['check_diff_touched'], o['check_diff_stdout'] = p.returncode, get(src) != data, p.stdout[:600]
+    put()
+    outp = os.path.join(wd, 'out.build')
+    p = meson_cli(base + ['--output', outp, 'meson.build'], cwd=wd)
+    o['output_rc'], o['output_bytes'], o['output_touched'] = p.returncode, get(outp), get(src) != data
+    p = meson_cli(base + ['meson.build'], cwd=wd)
+    o['stdout_rc'], o['stdout'] = p.returncode, p.stdout
+    p = meson_cli(base + ['--inplace', 'meson.build'], cwd=wd)
+    o['inplace_rc'], o['inplace_bytes'], o['inplace_stderr'] = p.returncode, get(src), (p.stdout + p.stderr)[-300:]
+    o['again'] = again
+    if p.returncode == 0 and again:
+        p = meson_cli(base + ['--check-only', 'meson.build'], cwd=wd)
+        o['recheck_rc'] = p.returncode
+        p = meson_cli(base + ['--inplace', 'meson.build'], cwd=wd)
+        o['inplace2_bytes'] = get(src)
+    o['input_bytes'] = data
+    return o
+
+
+def unl(b):
+    return b.replace(b'\r\n', b'\n').replace(b'\r', b'\n')
+
+
+def judge_modes(o):
+    """--check-only/--check-diff report a difference iff formatting (--inplace / --output) would
+    change the bytes of the file; the modes agree with each other; a second run changes nothing."""
+    fails = []
+    data = o['input_bytes']
+    if o['inplace_rc'] != 0:
+        # the file cannot be formatted: every mode must fail and leave it alone
+        for m in ('check_only', 'check_diff', 'output', 'stdout'):
+            if o[m + '_rc'] == 0:
+                fails.append({'kind': 'mode-succeeds-on-unformattable-file', 'mode': m})
+        if o['inplace_bytes'] != data:
+            fails.append({'kind': 'failed-inplace-modified-file'})
+        return fails
+    would_change = o['inplace_bytes'] != data
+    for m in ('check_only', 'check_diff'):
+        if o[m + '_touched']:
+            fails.append({'kind': 'check-mode-modified-file', 'mode': m})
+        rc = o[m + '_rc']
+        if rc not in (0, 1) or (rc != 0) != would_change:
+            fails.append({'kind': 'check-status-wrong', 'mode': m, 'rc': rc, 'inplace_would_change_bytes': would_change,
+                          'only_line_endings_differ': unl(o['inplace_bytes']) == unl(data)})
+    if o['output_rc'] != 0 or o['output_bytes'] != o['inplace_bytes'] or o['output_touched']:
+        fails.append({'kind': 'output-differs-from-inplace', 'rc': o['output_rc']})
+    if o['stdout_rc'] != 0 or not unl(o['stdout'].encode('utf-8')).endswith(unl(o['inplace_bytes'])):
+        fails.append({'kind': 'stdout-differs-from-inplace', 'rc': o['stdout_rc'], 'stdout': o['stdout'][-300:]})
+    if not o.get('again', True):
+        pass
+    elif o.get('inplace2_bytes') != o['inplace_bytes']:
+        fails.append({'kind': 'second-inplace-changes-file'})
+    elif o.get('recheck_rc') != 0:
+        fails.append({'kind': 'check-after-inplace-not-clean', 'rc': o.get('recheck_rc')})
+    return fails
+
+
+def modes_ident(f):
+    """recorded finding: the check modes compare decoded text (universal newlines), --inplace/--output
+    write with the end_of_line translation: only line endings differ"""
+    if f['kind'] == 'check-status-wrong' and f['rc'] == 0 and f['inplace_would_change_bytes'] and f['only_line_endings_differ']:
+        return 'C16:cli:check-ignores-line-endings'
+    return None
+
+
+def printable(o):
+    return {k: (v.decode('utf-8', 'replace') if isinstance(v, bytes) else v) for k, v in o.items()}
+
+
+def cli_modes(ctx, rng, run_, pairs, res, nbases):
+    cand = [k for k in range(len(pairs)) if 'out' in res[k] and res[k].get('out2') == res[k]['out']
+            and 20 < len(res[k]['out']) < 500 and ascii_only(res[k]['out']) and '\r' not in res[k]['out']
+            and '\n    ' in res[k]['out'] and not pairs[k][1].get('indent_by')]
+    rng.shuffle(cand)
+    bases = [(res[k]['out'], pairs[k][1]) for k in cand[:nbases]]
+    hand = [(h, {}) for h in HAND_BASES]
+    hres = run_.impl(hand)
+    thorough = ctx.tier == 'thorough'
+    hb = []
+    for (h, g), r in zip(hand, hres):
+        if r.get('out') == h and r.get('out2') == h:       # really canonical for this implementation
+            hb.append((h, g))
+    bases = (hb if thorough else hb[1:2]) + bases
+    jobs = []
+    for bi, (canon, cfg) in enumerate(bases):
+        for name, text in byte_variants(canon):
+            jobs.append((name, text, cfg))
+        if thorough or bi == 0:
+            for eol in (EOLS[1:] if thorough else ['crlf', 'cr']):
+                for name, text in (('canonical', canon), ('crlf', canon.replace('\n', '\r\n')), ('no-final-newline', canon.rstrip('\n'))):
+                    jobs.append((name + '+end_of_line=' + eol, text, dict(cfg, end_of_line=eol)))
+        if thorough or bi == 0:
+            for extra in (({'insert_final_newline': False}, {'indent_by': '\t'}) if thorough else ({'insert_final_newline': False},)):
+                for name, text in byte_variants(canon)[:4]:
+                    jobs.append((name + '+' + json.dumps(extra), text, dict(cfg, **extra)))
+    d = ctx.mkscratch()
+
+    def one(j):
+        name, text, cfg = jobs[j]
+        again = thorough or name.startswith(('canonical', 'no-final-newline', 'crlf'))
+        return judge_modes(run_modes(text, cfg, os.path.join(d, 'modes%d' % j), again))
+    stats = {'bases': len(bases), 'files': len(jobs), 'cli_runs': 0, 'failures': {}}
+    for j, fails in enumerate(pmap(one, range(len(jobs)))):
+        name, text, cfg = jobs[j]
+        stats['cli_runs'] += 7 if (thorough or name.startswith(('canonical', 'no-final-newline', 'crlf'))) else 5
+        ctx.count(('cli-modes', name, text, json.dumps(cfg, sort_keys=True)))
+        for f in fails:
+            stats['failures'][f['kind']] = stats['failures'].get(f['kind'], 0) + 1
+            ident = modes_ident(f) or 'C16:cli:%s:%s:%s:%s' % (f['kind'], name, json.dumps(cfg, sort_keys=True), json.dumps(text))
+            ctx.violation(ident, 'meson format command line: %s (%s) on %s [%s] with %s'
+                          % (f['kind'], f.get('mode', ''), json.dumps(text[:120]), name, json.dumps(cfg)),
+                          {'code': text, 'config': cfg, 'variant': name, 'failure': f, 'cli_modes': True})
+    ctx.extra['cli_modes'] = stats
+    ctx.sample({'cli_modes_file': jobs[1][1][:120], 'variant': jobs[1][0], 'config': jobs[1][2]} if len(jobs) > 1 else {})
